@@ -192,6 +192,27 @@ package state
 //@   ensures result1 == nil ==> result0 == $bal[clientID]
 //@   ensures result1 == util.ErrValueNotPresent ==> result0 == 0 && $bal[clientID] == 0
 //@   modifies nothing
+// (C04) A context validates only if the queued transfers out of the sender's account add up to at
+// most the transaction's value plus fee, and every signed transfer carries a valid signature of its
+// source account and a positive amount.
+//   st_signed(from, to, amount, scheme, key, sig): sig is a valid signature, under public key `key`
+//   whose hash is `from`, of the transfer (from, to, amount)  (what VerifySignature(true) checks)
+//@ uf st_signed (Str Str Int Str Str Str) Bool
+//@ spec signedOK(t *state.SignedTransfer) bool = st_signed(t.ClientID, t.ToClientID, t.Amount, t.SchemeName, t.PublicKey, t.Sig)
+//@ assume func 0chain.net/chaincore/state.(SignedTransfer).VerifySignature
+//@   params st requireSendersSignature
+//@   pure
+//@   ensures result == nil && requireSendersSignature ==> st_signed(st.ClientID, st.ToClientID, st.Amount, st.SchemeName, st.PublicKey, st.Sig)
+
+//@ spec senderDebit(sc *StateContext, n int) int = sumof k in 0..n :: (sc.transfers[k].ClientID == sc.txn.ClientID ? sc.transfers[k].Amount : 0)
+
 //@ func (*StateContext).Validate
-//@   trusted
+//@   prop C04
+//@   requires sc != nil && sc.txn != nil && (forall i in 0..len(sc.transfers) :: sc.transfers[i] != nil) && (forall i in 0..len(sc.signedTransfers) :: sc.signedTransfers[i] != nil)
+//@   ensures[sender-debits-bounded] result == nil ==> senderDebit(sc, len(sc.transfers)) <= sc.txn.Value + sc.txn.Fee
+//@   ensures[signed-transfers-verified] result == nil ==> forall i in 0..len(sc.signedTransfers) :: signedOK(sc.signedTransfers[i]) && sc.signedTransfers[i].Amount > 0
 //@   modifies nothing
+//@   loop 1 header "for _, transfer := range sc.transfers"
+//@   loop 1 invariant amount == senderDebit(sc, $idx + 1)
+//@   loop 2 header "for _, signedTransfer := range sc.signedTransfers"
+//@   loop 2 invariant forall k in 0..$idx+1 :: signedOK(sc.signedTransfers[k]) && sc.signedTransfers[k].Amount > 0
